@@ -930,9 +930,12 @@ def instruction(ctx):
         if idx == -1:
             idx = len(ctx.code)
 
-        text = ctx.code[ctx.pos:idx].strip()
+        raw_text = ctx.code[ctx.pos:idx]
+        text = raw_text.strip()
         if text:
-            ctx.skip_whitespace()
+            # Only the blanks in front of the text: skip_whitespace() would also skip a text that starts with ';'
+            # (and the lines after it), and the text would then be counted a second time
+            ctx.pos += len(raw_text) - len(raw_text.lstrip())
             ctx_before_message = ctx.save()
             ctx.pos += len(text)
             operands = [types.QuotedString(ctx_before_message, ctx, "", text)]
